@@ -1045,14 +1045,21 @@ def build(scn: Scn, rt: Runtime, cls_name=None, picklable=False):
         ns[c.name] = deco(fn)
     # machine-provided methods (conv + name)
     model_ns, listener_ns = {}, {}
-    hooks = scn.listener_kind == "hooks"
+    hooks = scn.listener_kind in ("hooks", "shared")
+    # "shared": the listeners are plain objects whose callbacks are instance attributes, each of them a *bound method
+    # of one helper object* that all listeners delegate to (`self.on_enter_state = bus.publish`): the callables of two
+    # providers then share `__self__` (and, under one name, `__name__`) — they are still one callback per provider
+    shared_helper = type("Helper_" + scn.name.replace("-", "_").replace(":", "_"), (), {})()
     for c in scn.cbs:
         if c.style not in ("conv", "name", "attr") or c.alias_of or c.same_as:
             continue
         if c.style == "attr":     # a plain (non-callable) attribute used as a callback: its value is the callback's value
             fn = POOL[attr_value(scn, c)]
         else:
-            fn = make_fn(rt, c, with_self=not (hooks and c.provider.startswith("L")))
+            fn = make_fn(rt, c, with_self=not (scn.listener_kind == "hooks" and c.provider.startswith("L")))
+            if scn.listener_kind == "shared" and c.provider.startswith("L"):
+                import types as _types
+                fn = _types.MethodType(fn, shared_helper)
         if c.wrap == "prop" and c.style in ("conv", "name") and not (hooks and c.provider.startswith("L")):
             # a delegation facade: the provider exposes the callback through a property that returns the callable
             import types
